@@ -289,8 +289,21 @@ class Prov:
             return {("fn", k["fn"]["path"])}
         return {("const", k.get("val", "?"))}
 
+    def fields_of(self, place, depth=0):
+        """Field names plus index projections ([<provenance of the index local>])."""
+        out = []
+        for e in place["p"]:
+            if isinstance(e, dict):
+                if "f" in e:
+                    out.append(e["n"] if e.get("n") is not None else str(e["f"]))
+                elif "i" in e and depth < 6:
+                    out.append("[%s]" % fmt_roots(self.of_local(e["i"], depth + 1)))
+                elif "ci" in e:
+                    out.append("[%s]" % e["ci"])
+        return out
+
     def of_place(self, place, depth=0):
-        fields = tuple(field_path(place))
+        fields = tuple(self.fields_of(place, depth))
         base = self.of_local(place["l"], depth)
         if not fields:
             return base
